@@ -70,7 +70,12 @@ class Check:
         self.prop = prop
         self.tier = tier
         self.t0 = time.time()
-        self.targets = targets if targets is not None else [f'WcModel.Properties.{prop}']
+        self.targets = list(targets) if targets is not None else [f'WcModel.Properties.{prop}']
+        # every module WcModel/Properties/<ID>*.lean belongs to the property (e.g. C05split, C10wf)
+        pdir = os.path.join(common.LEAN, 'WcModel', 'Properties')
+        for f in sorted(os.listdir(pdir)):
+            if f.startswith(prop) and f.endswith('.lean') and f'WcModel.Properties.{f[:-5]}' not in self.targets:
+                self.targets.append(f'WcModel.Properties.{f[:-5]}')
         self.build_ok = True
         self.build_log = ''
         self.broken_ties: list[str] = []       # theorems / modules / streams that no longer check
